@@ -35,12 +35,12 @@ DoApp(e) ==
   /\ GhostNext(e, res.ok, led[e.c], res.L, res.calls, res.wack, res.pkt)
 
 -------------------------------------------------------------------------------
+\* a native NFT id is minted at most once per chain: re-minting an id whose token was burnt by a transfer would alias
+\* two assets in the lineage ghost
+MintedNft == {[act |-> "Mint", c |-> m[1][1], k |-> "nft", cls |-> m[1][2], id |-> m[1][3], u |-> u, amt |-> 1] : m \in minted, u \in Users}
 MintEvents ==
-     {[act |-> "Mint", c |-> c, k |-> "nft", cls |-> cl, id |-> i, u |-> u, amt |-> 1] :
-        c \in AppSenders, cl \in {x \in NftNatives : TRUE}, i \in NftIds, u \in Users}
-     \ {e \in {[act |-> "Mint", c |-> m[1][1], k |-> "nft", cls |-> m[1][2], id |-> m[1][3], u |-> u, amt |-> 1] : m \in minted, u \in Users} : TRUE}
-     \* (a native NFT id is minted at most once per chain: re-minting an id whose token was burnt by a transfer would
-     \*  alias two assets in the lineage ghost)
+     ({[act |-> "Mint", c |-> c, k |-> "nft", cls |-> cl, id |-> i, u |-> u, amt |-> 1] :
+         c \in AppSenders, cl \in NftNatives, i \in NftIds, u \in Users} \ MintedNft)
 \cup {[act |-> "Mint", c |-> c, k |-> "mt", cls |-> cl, id |-> i, u |-> u, amt |-> n] :
         c \in AppSenders, cl \in MtNatives, i \in MtIds, u \in {"u1"}, n \in Amounts}
 
